@@ -753,7 +753,136 @@ fn run_message(ctx: &mut Ctx) {
     }
 }
 
+/// every cipher a container can name (the decryptors dispatch per cipher; the RFC reference used for
+/// the correspondence exists for AES / CAST5 only): honest round trip, then a fixed set of changes to
+/// the ciphertext, under both SEIPDv1 read modes and the three AEAD modes (oracle only)
+fn run_cipher_sweep(ctx: &mut Ctx) {
+    use SymmetricKeyAlgorithm as S;
+    let mut rng = ChaCha8Rng::seed_from_u64(ctx.seed ^ 0xC03C);
+    let pats = [Pattern::ReadToEnd, Pattern::Fixed(1), Pattern::Fixed(64), Pattern::BufRead(5), Pattern::PollOn(64), Pattern::ZeroMix(33), Pattern::Fixed(8192)];
+    let mods = |ct: &[u8], rng: &mut ChaCha8Rng| -> Vec<(String, Vec<u8>)> {
+        let n = ct.len();
+        let mut out: Vec<(String, Vec<u8>)> = Vec::new();
+        let mut flip = |name: &str, at: usize, bit: u8| {
+            if at < n {
+                let mut m = ct.to_vec();
+                m[at] ^= 1 << bit;
+                out.push((format!("{name}@{at}"), m));
+            }
+        };
+        flip("flip_first", 0, 0);
+        flip("flip_prefix", 9.min(n.saturating_sub(1)), 7);
+        flip("flip_mid", n / 2, rng.gen_range(0..8));
+        flip("flip_random", rng.gen_range(0..n.max(1)), rng.gen_range(0..8));
+        flip("flip_tail21", n.saturating_sub(21), 1);
+        flip("flip_tail16", n.saturating_sub(16), 3);
+        flip("flip_last", n.saturating_sub(1), 0);
+        if n > 0 {
+            out.push(("cut1".into(), ct[..n - 1].to_vec()));
+            out.push(("cut_half".into(), ct[..n / 2].to_vec()));
+            out.push((format!("cut_random"), ct[..rng.gen_range(0..n)].to_vec()));
+        }
+        if n > 22 {
+            out.push(("cut22".into(), ct[..n - 22].to_vec()));
+            out.push(("cut16".into(), ct[..n - 16].to_vec()));
+        }
+        let mut m = ct.to_vec();
+        m.push(rng.gen());
+        out.push(("append1".into(), m));
+        let mut m = ct.to_vec();
+        m.extend_from_slice(&ct[n.saturating_sub(16)..]);
+        out.push(("append_tail_again".into(), m));
+        out
+    };
+    // SEIPDv1
+    for (ai, sym) in [S::IDEA, S::TripleDES, S::CAST5, S::Blowfish, S::AES128, S::AES192, S::AES256, S::Twofish, S::Camellia128, S::Camellia192, S::Camellia256].into_iter().enumerate() {
+        let bs = sym.block_size();
+        for (li, n) in [0usize, 1, bs - 1, bs, 3 * bs + 1, 200, 8192 - 22 - bs - 2, 8192, 8192 + 5, ctx.pick(9000, 30000)].into_iter().enumerate() {
+            let key = gen::random_bytes(&mut rng, sym.key_size());
+            let pt = gen::random_bytes(&mut rng, n);
+            let Ok(pkt) = SymEncryptedProtectedData::encrypt_seipdv1(&mut rng, sym, &key, &pt) else {
+                ctx.stat(&format!("sweep:v1:cannot_encrypt:{sym:?}"));
+                continue;
+            };
+            let ct = pkt.data().to_vec();
+            let site = "crypto/sym/decryptor.rs StreamDecryptor::new (per-cipher dispatch, SEIPDv1)";
+            for streaming in [false, true] {
+                let mode = || if streaming { Seipdv1ReadMode::Streaming } else { Seipdv1ReadMode::CheckFirst { max_message_size: 1 << 20 } };
+                let pat = pats[(ai + li + streaming as usize) % pats.len()];
+                let real = v1_real(sym, mode(), &key, &ct, pat);
+                let input = |what: &str| format!("sym={sym:?} streaming={streaming} n={n} pat={pat:?} what={what}");
+                ctx.oracle("unmodified_decrypts", site, &input("honest"), real.1 && real.0 == pt, &format!("ok={} released={}", real.1, real.0.len()));
+                for (what, m) in mods(&ct, &mut rng) {
+                    let real = v1_real(sym, mode(), &key, &m, pat);
+                    ctx.oracle("modified_never_clean_eof", site, &input(&what), !real.1, &format!("clean end after {} octets", real.0.len()));
+                    if !streaming {
+                        ctx.oracle("checkfirst_releases_nothing", site, &input(&what), real.0.is_empty(), &format!("released {} octets", real.0.len()));
+                    }
+                    ctx.stat("sweep:v1");
+                }
+            }
+        }
+    }
+    // SEIPDv2: every 128-bit-block cipher x AEAD mode x two chunk sizes
+    for (ai, sym) in [S::AES128, S::AES192, S::AES256, S::Twofish, S::Camellia128, S::Camellia192, S::Camellia256].into_iter().enumerate() {
+        for (mi, aead) in [AeadAlgorithm::Eax, AeadAlgorithm::Ocb, AeadAlgorithm::Gcm].into_iter().enumerate() {
+            for cs_octet in [0u8, 2] {
+                let cs = 1usize << (cs_octet as usize + 6);
+                for (li, n) in [0usize, 1, cs, 2 * cs + 3, 5 * cs].into_iter().enumerate() {
+                    let key = gen::random_bytes(&mut rng, sym.key_size());
+                    let pt = gen::random_bytes(&mut rng, n);
+                    let Ok(cs_enum) = ChunkSize::try_from(cs_octet) else { continue };
+                    let Ok(pkt) = SymEncryptedProtectedData::encrypt_seipdv2(&mut rng, sym, aead, cs_enum, &key, &pt) else {
+                        ctx.stat(&format!("sweep:v2:cannot_encrypt:{sym:?}:{aead:?}"));
+                        continue;
+                    };
+                    let SymEncryptedProtectedDataConfig::V2 { salt, .. } = pkt.config() else { continue };
+                    let p = V2Params { sym, aead, cs_octet, salt: *salt, key: key.clone() };
+                    let ct = pkt.data().to_vec();
+                    let site = "crypto/aead/decryptor.rs StreamDecryptor (per-cipher dispatch, SEIPDv2)";
+                    let pat = pats[(ai + mi + li) % pats.len()];
+                    let input = |what: &str| format!("sym={sym:?} aead={aead:?} cs={cs} n={n} pat={pat:?} what={what}");
+                    let real = v2_real(&p, &ct, pat);
+                    ctx.oracle("unmodified_decrypts", site, &input("honest"), real.1 && real.0 == pt, &format!("ok={} released={}", real.1, real.0.len()));
+                    let mut ms = mods(&ct, &mut rng);
+                    // whole chunks dropped / duplicated / swapped
+                    let seg = cs + 16;
+                    if ct.len() >= 2 * seg + 16 {
+                        let mut m = ct.clone();
+                        m.drain(0..seg);
+                        ms.push(("drop_first_chunk".into(), m));
+                        let mut m = ct[..seg].to_vec();
+                        m.extend_from_slice(&ct);
+                        ms.push(("dup_first_chunk".into(), m));
+                        let mut m = ct.clone();
+                        let (a, b) = m.split_at_mut(seg);
+                        a.swap_with_slice(&mut b[..seg]);
+                        ms.push(("swap_first_two".into(), m));
+                    }
+                    // header fields: another salt, cipher, mode or chunk size than the sender used
+                    for (what, q) in [
+                        ("other_salt", V2Params { salt: { let mut s = *salt; s[31] ^= 1; s }, ..V2Params { sym, aead, cs_octet, salt: *salt, key: key.clone() } }),
+                        ("other_chunk_size", V2Params { sym, aead, cs_octet: cs_octet + 1, salt: *salt, key: key.clone() }),
+                        ("other_mode", V2Params { sym, aead: if aead == AeadAlgorithm::Ocb { AeadAlgorithm::Gcm } else { AeadAlgorithm::Ocb }, cs_octet, salt: *salt, key: key.clone() }),
+                    ] {
+                        let real = v2_real(&q, &ct, pat);
+                        ctx.oracle("modified_never_clean_eof", site, &input(what), !real.1, &format!("clean end after {} octets", real.0.len()));
+                        ctx.oracle("released_is_prefix", site, &input(what), pt.starts_with(&real.0), &format!("released {} octets", real.0.len()));
+                    }
+                    for (what, m) in ms {
+                        let real = v2_real(&p, &m, pat);
+                        ctx.oracle("modified_never_clean_eof", site, &input(&what), !real.1, &format!("clean end after {} octets", real.0.len()));
+                        ctx.oracle("released_is_prefix", site, &input(&what), pt.starts_with(&real.0), &format!("released {} octets", real.0.len()));
+                        ctx.stat("sweep:v2");
+                    }
+                }
+            }
+        }
+    }
+}
+
 pub fn run(ctx: &mut Ctx) {
+    run_cipher_sweep(ctx);
     // thorough: the whole sweep is repeated with fresh keys, salts, plaintexts and mutation choices
     let rounds = ctx.pick(1u64, 24u64);
     let base = ctx.seed;
